@@ -10,3 +10,7 @@ import EraVerif.Props.C08
 import EraVerif.Props.C04
 import EraVerif.Props.C13
 import EraVerif.Props.C19
+import EraVerif.Props.C17
+import EraVerif.Props.C16b
+import EraVerif.Props.C10
+import EraVerif.Props.C03
